@@ -637,6 +637,51 @@ theorem built_simple_glyph_reads_back (gs : List Glyph) (glyf loca : List Nat)
       · rw [hx1, hx2, hx3, hx4]
     · cases hwi
 
+/-- **built_composite_glyph_reads_back.**  The composition for composite glyphs: if glyph `i` of an
+accepted sequence is a composite glyph (i16 bbox, valid component fields), then `get_glyf(i)` on the
+built tables returns bytes that dispatch to the composite reader and yield exactly the components
+added (ids, anchors, transforms, user flags, in order), their count, the bounding box and the
+instructions. -/
+theorem built_composite_glyph_reads_back (gs : List Glyph) (glyf loca : List Nat)
+    (hb : build gs = some (glyf, loca)) (h32 : glyf.length < 4294967296)
+    (i : Nat) (hi : i < gs.length) (g : CompositeGlyph) (hg : gs[i] = .composite g)
+    (hbox : inI16 g.xMin ∧ inI16 g.yMin ∧ inI16 g.xMax ∧ inI16 g.yMax)
+    (hv : ∀ c ∈ g.components, c.Valid) :
+    ∃ start data v, getGlyf loca glyf i = .bytes start data ∧ i16At data 0 = some (-1) ∧
+      readComposite data = some v ∧
+      v.components.map (fun r => (r.glyph, r.anchor, r.transform, ComponentFlags.ofBits r.flags))
+        = g.components.map (fun c => (c.glyph, c.anchor, c.transform, c.flags)) ∧
+      v.count = g.components.length ∧
+      (v.xMin, v.yMin, v.xMax, v.yMax) = (g.xMin, g.yMin, g.xMax, g.yMax) ∧
+      v.instructions = (if g.instructions.isEmpty then none else some g.instructions) := by
+  obtain ⟨_, _, _, bs, h1, h2, h3⟩ := build_get_glyf gs glyf loca hb h32
+  have hlen : bs.length = gs.length := by
+    have := congrArg List.length h1; simpa using this.symm
+  have hi' : i < bs.length := by omega
+  have hwi : writeGlyph gs[i] = .ok bs[i] := by
+    have := congrArg (fun l => l[i]?) h1
+    simp only [List.getElem?_map, List.getElem?_eq_getElem hi, List.getElem?_eq_getElem hi',
+      Option.map_some, Option.some.injEq] at this
+    exact this
+  rw [hg] at hwi
+  simp only [writeGlyph] at hwi
+  split at hwi
+  · cases hwi
+  · rename_i hval
+    split at hwi
+    · rename_i b hw
+      simp only [WriteResult.ok.injEq] at hwi
+      have hil : g.instructions.length < 65536 := by omega
+      obtain ⟨h0, v, hr, hx1, hx2, hx3, hx4, hcomps, _, hcount, hins⟩ :=
+        composite_glyph_roundtrip g b hbox hv hil hw
+      have hbne : b ≠ [] := by
+        intro e; rw [e] at h0; simp [i16At, u16At] at h0
+      refine ⟨prefixLen bs i, bs[i], v, ?_, by rw [← hwi]; exact h0, by rw [← hwi]; exact hr,
+        hcomps, hcount, ?_, hins⟩
+      · rw [h3 i hi', ← hwi]; simp [hbne]
+      · rw [hx1, hx2, hx3, hx4]
+    · cases hwi
+
 /-! ## BezPath → glyph → unscaled draw (integer-coordinate line/quadratic paths) -/
 
 /-- **elide_sound.**  `InterpolatableContourBuilder::build` drops point `i` of a contour only if it
